@@ -23,21 +23,21 @@ type LoopSpec struct {
 }
 
 type Contract struct {
-	Key       string // core.notAfter | iface:core.State.Add | funcval:core.(*Throttle).Submit.f | extern:time.ParseDuration
-	Pkg       string // package short path the contract was written in (core, sys, ...)
-	Requires  []Clause
-	Ensures   []Clause
-	GhostEns  []Clause // assumed at call sites, not checked against the body (ghost instrumentation)
-	Entry     []Clause // assumed at entry when verifying the body (ghost initialisation)
-	Modifies  []string // raw item texts
-	HasMods   bool
-	Loops     map[int]*LoopSpec
-	Trusted   bool
-	Pure      bool
-	InlineOK  bool
-	File      string
-	Line      int
-	Props     map[string]bool
+	Key      string // core.notAfter | iface:core.State.Add | funcval:core.(*Throttle).Submit.f | extern:time.ParseDuration
+	Pkg      string // package short path the contract was written in (core, sys, ...)
+	Requires []Clause
+	Ensures  []Clause
+	GhostEns []Clause // assumed at call sites, not checked against the body (ghost instrumentation)
+	Entry    []Clause // assumed at entry when verifying the body (ghost initialisation)
+	Modifies []string // raw item texts
+	HasMods  bool
+	Loops    map[int]*LoopSpec
+	Trusted  bool
+	Pure     bool
+	InlineOK bool
+	File     string
+	Line     int
+	Props    map[string]bool
 }
 
 type Define struct {
@@ -66,14 +66,14 @@ type Guard struct {
 }
 
 type Specs struct {
-	contracts map[string]*Contract
-	defines   map[string]*Define
-	pures     map[string]*PureFunc
-	ghosts    map[string]*GhostVar
-	guards    map[string]*Guard
-	externPure map[string]bool
-	noInline  map[string]bool
-	files     []string
+	contracts   map[string]*Contract
+	defines     map[string]*Define
+	pures       map[string]*PureFunc
+	ghosts      map[string]*GhostVar
+	guards      map[string]*Guard
+	externPure  map[string]bool
+	noInline    map[string]bool
+	files       []string
 	trustedList []string
 }
 
